@@ -11,6 +11,11 @@
      - an aborted execute() never polls its handler again and buffers nothing (C04's lemma).
    K2 (known finding): with MaxRequests at its limit and the sink not ready the inner channel is
    not polled, so the third item does not happen until the sink is ready: witness theorem.
+     - C06_never_early_monitor (trace form, by induction over op lists with the observer/model
+       simulation invariant of ServerSim*.v): in EVERY run, for every transport whose fuel measure
+       decreases with each item it hands out, the "never early" flag of the monitor stays true: no
+       execute() ends without its handler having completed unless the request's Cancel was read,
+       its deadline timer was due, or the channel was dropped; and the trace is well formed.
    NOT yet proved as theorems (checked by the monitors on every run):
      C06_monitor_rel : forall c t0 ops, c06_rel_ok c ops (fst (srun c t0 ops)) = true
      C06_monitor     : forall c t0 ops, limiter_blocked_on_sink c ops (fst (srun c t0 ops)) = false ->
@@ -18,7 +23,8 @@
    Environment hypothesis (C16): virtual clock below 2^35 ms (idle-wheel range of the DelayQueue). *)
 From Coq Require Import List Bool Arith NArith.
 Import ListNotations.
-From TarpcV Require Import Base Transport TimerWheel Server ServerMon ServerWitness ServerSim4 ServerState.
+From TarpcV Require Import Base Transport TimerWheel Server ServerMon ServerFuel ServerWitness ServerSim4
+     ServerSim7 ServerState ServerProps.
 
 Theorem C06_timer_not_before_deadline :
   forall (T : Type) id dl (s : @sstate T) h s',
@@ -43,6 +49,20 @@ Theorem C06_idle_means_enforced :
   forall (T : Type) (tp : transport T response cmsg) f (s s' : @sstate T),
     base_poll_next tp f s = (PPending, s') -> s_cancels s' = [] /\ due s' = [].
 Proof. intros T tp f s s' H. exact (base_complete tp f s _ s' H). Qed.
+
+Theorem C06_never_early_monitor :
+  forall (T C : Type) (tp : transport T response cmsg) (ctl : T -> C -> T) (tfuel : T -> nat)
+         (c : cfg) (t0 : T) (ops : list (op C)),
+    tfuel_ok tp tfuel ->
+    let v := observe c ops (fst (run tp ctl tfuel c t0 ops)) in
+    v_bad v = false /\ v06e v = true.
+Proof. exact server_never_early. Qed.
+
+(* the same for the instance the correspondence check runs *)
+Theorem C06_never_early_scripted :
+  forall c t0 ops,
+    let v := observe c ops (fst (srun c t0 ops)) in v_bad v = false /\ v06e v = true.
+Proof. intros c t0 ops. exact (server_never_early _ _ _ _ _ c t0 ops scripted_tfuel_ok). Qed.
 
 (* K2 (known finding): at its limit with the sink not ready MaxRequests does not poll the inner
    channel, so an expired request stays tracked and its handler keeps running. *)
@@ -76,4 +96,6 @@ Print Assumptions C06_timer_not_before_deadline.
 Print Assumptions C06_expiry_never_early.
 Print Assumptions C06_expiry_frame.
 Print Assumptions C06_idle_means_enforced.
+Print Assumptions C06_never_early_monitor.
+Print Assumptions C06_never_early_scripted.
 Print Assumptions C06_limiter_blocked_on_sink_witness.
